@@ -211,3 +211,8 @@ Print Assumptions C12_mutate_ticks_mask.
 Print Assumptions C12_mutate_ticks_refines.
 Print Assumptions C12_mutate_ticks_shift_loop.
 Print Assumptions C12_mutate_ticks_protocol.
+
+(* the widths the tick models hard-wire are those of the current source (Generated/Params.v is rewritten on every run) *)
+Theorem C12_widths_pinned : (RV.Generated.Params.tick_width = 32 /\ RV.Generated.Params.hist_mask_width = 64 /\ RV.Generated.Params.mt_window_width = 64)%N.
+Proof. exact widths_pinned. Qed.
+Print Assumptions C12_widths_pinned.
